@@ -79,11 +79,38 @@ inline uint64_t hash_str(const char* s) {
 // order-insensitive observation: contributes (key,value) to the execution's outcome digest
 inline void observe(const char* key, long v) { mc_observe(hash_str(key) * 31 + (uint64_t)v * 0x9e3779b97f4a7c15ULL); }
 
+// Predicates of block_until are evaluated by whichever thread happens to run the scheduler, so under
+// TSan their reads are excluded from race detection (they are harness mechanics, not program accesses).
+#if defined(__has_feature)
+#if __has_feature(thread_sanitizer)
+#define MC_HARNESS_TSAN 1
+extern "C" void AnnotateIgnoreReadsBegin(const char* f, int l);
+extern "C" void AnnotateIgnoreReadsEnd(const char* f, int l);
+extern "C" void AnnotateIgnoreWritesBegin(const char* f, int l);
+extern "C" void AnnotateIgnoreWritesEnd(const char* f, int l);
+#endif
+#endif
+struct TsanIgnore {
+#ifdef MC_HARNESS_TSAN
+  TsanIgnore() {
+    AnnotateIgnoreReadsBegin(__FILE__, __LINE__);
+    AnnotateIgnoreWritesBegin(__FILE__, __LINE__);
+  }
+  ~TsanIgnore() {
+    AnnotateIgnoreWritesEnd(__FILE__, __LINE__);
+    AnnotateIgnoreReadsEnd(__FILE__, __LINE__);
+  }
+#endif
+};
+
 template <class P>
 inline void block_until(P pred) {
   struct Ctx {
     P* p;
-    static int call(void* c) { return (*static_cast<Ctx*>(c)->p)() ? 1 : 0; }
+    static int call(void* c) {
+      TsanIgnore ig;
+      return (*static_cast<Ctx*>(c)->p)() ? 1 : 0;
+    }
   } ctx{&pred};
   mc_block_until(&Ctx::call, &ctx);
 }
